@@ -197,6 +197,9 @@ int main(int argc, char **argv)
         else if(o == "bendml") opn2_rt_pitchBendML(dev, (OPN2_UInt8)c.get("ch"), (OPN2_UInt8)c.get("m"), (OPN2_UInt8)c.get("l"));
         else if(o == "cat") opn2_rt_channelAfterTouch(dev, (OPN2_UInt8)c.get("ch"), (OPN2_UInt8)c.get("v"));
         else if(o == "nat") opn2_rt_noteAfterTouch(dev, (OPN2_UInt8)c.get("ch"), (OPN2_UInt8)c.get("k"), (OPN2_UInt8)c.get("v"));
+        else if(o == "panic") opn2_panic(dev);
+        else if(o == "emu") r = opn2_switchEmulator(dev, (int)c.get("v"));
+        else if(o == "chips") r = opn2_setNumChips(dev, (int)c.get("n"));
         else if(o == "tick")
         {
             // time passes (no song is loaded): vibrato, glide and drum life times advance
